@@ -145,7 +145,11 @@ def model_runs(chk, tier, cfgs=None, needed=None):
         live = cfg.startswith("MC_Krill_live")
         res = vlib.run_tlc("MC_Krill_live" if live else "MC_Krill", cfg,
                            chk.out, workers=6 if live else 12,
-                           timeout=600 if "_q_" in cfg else 2400,
+                           # (the large configurations take 10-25 min on
+                           # an idle machine with 12 workers; a machine
+                           # shared with other builds needs much longer --
+                           # a time-out is a tool error, not a verdict)
+                           timeout=900 if "_q_" in cfg else 7200,
                            coverage=not live)
         if cfg == "MC_Krill_live_sanity.cfg":
             # anti-vacuity: this temporal property is false (a roll rests
